@@ -55,6 +55,7 @@ static void adfFreeTmpVolList ( struct AdfList * const root )
         vol = (struct AdfVolume *) cell->content;
         if (vol->volName!=NULL)
             free(vol->volName);  
+        free(vol);
         cell = cell->next;
     }
     freeList(root);
@@ -163,12 +164,14 @@ RETCODE adfMountHd ( struct AdfDevice * const dev )
         /* the RDB area holds fewer blocks than the device: stops on a cyclic list */
         if ( (uint32_t) dev->nVol > dev->size / 512 ) {
             adfFreeTmpVolList(listRoot);
+            dev->nVol = 0;
             (*adfEnv.eFct)("adfMountHd : partition list too long (cycle?)");
             return RC_ERROR;
         }
         rc = adfReadPARTblock ( dev, next, &part );
         if ( rc != RC_OK ) {
             adfFreeTmpVolList(listRoot);
+            dev->nVol = 0;
             (*adfEnv.eFct)("adfMountHd : malloc");
             return rc;
         }
@@ -176,6 +179,7 @@ RETCODE adfMountHd ( struct AdfDevice * const dev )
         vol = (struct AdfVolume *) malloc (sizeof(struct AdfVolume));
         if ( vol == NULL ) {
             adfFreeTmpVolList(listRoot);
+            dev->nVol = 0;
             (*adfEnv.eFct)("adfMountHd : malloc");
             return RC_MALLOC;
         }
@@ -191,6 +195,7 @@ RETCODE adfMountHd ( struct AdfDevice * const dev )
         vol->volName = (char*)malloc(len+1);
         if ( vol->volName == NULL ) { 
             adfFreeTmpVolList(listRoot);
+            dev->nVol = 0;
             free ( vol );
             (*adfEnv.eFct)("adfMount : malloc");
             return RC_MALLOC;
@@ -208,6 +213,7 @@ RETCODE adfMountHd ( struct AdfDevice * const dev )
 
         if (vList==NULL) {
             adfFreeTmpVolList(listRoot);
+            dev->nVol = 0;
             (*adfEnv.eFct)("adfMount : newCell() malloc");
             return RC_MALLOC;
         }
@@ -220,6 +226,7 @@ RETCODE adfMountHd ( struct AdfDevice * const dev )
         sizeof(struct AdfVolume *) * (unsigned) dev->nVol );
     if ( dev->volList == NULL ) {
         adfFreeTmpVolList(listRoot);
+        dev->nVol = 0;
         (*adfEnv.eFct)("adfMount : malloc");
         return RC_MALLOC;
     }
@@ -235,9 +242,13 @@ RETCODE adfMountHd ( struct AdfDevice * const dev )
     while( next!=-1 && steps-- > 0 ) {
         rc = adfReadFSHDblock ( dev, next, &fshd ); 
         if ( rc != RC_OK ) {
-            for ( i = 0 ; i < dev->nVol ; i++ )
+            for ( i = 0 ; i < dev->nVol ; i++ ) {
+                free ( dev->volList[i]->volName );
                 free ( dev->volList[i] );
+            }
             free(dev->volList);
+            dev->volList = NULL;
+            dev->nVol = 0;
             (*adfEnv.eFct)("adfMount : adfReadFSHDblock");
             return rc;
         }
